@@ -71,6 +71,61 @@ Proof.
   eexists. split; vm_compute; reflexivity.
 Qed.
 
+(* ONE CALL AFTER ANOTHER (Model/CsvSession.v).  The string-returning entry
+   points run RenderTo into a buffer of their own, fresh for every call; what
+   they return is what the one-shot model says. *)
+From Tab Require Import Model.CsvSession Proofs.CsvSessionProofs.
+
+Theorem c05_render_own_buffer : forall v, csv_render_string v = csv_render v.
+Proof. exact csv_render_string_eq. Qed.
+Print Assumptions c05_render_own_buffer.
+
+(* In any sequence of renders, of any tables, failing or not, every result is
+   the result of rendering that call's table alone: nothing carries over. *)
+Theorem c05_session_independent : forall vs, Forall2 (fun v o => o = csv_render v) vs (csv_session vs).
+Proof. exact csv_session_pointwise. Qed.
+Print Assumptions c05_session_independent.
+
+(* So whatever was rendered before (pre) and whatever comes after (post), a
+   render that succeeds parses back to exactly ITS table. *)
+Theorem c05_session_roundtrip : forall pre v post out,
+  nth_error (csv_session (pre ++ v :: post)) (length pre) = Some (Ok out) ->
+  parse_csv out = Some (map (pad_to (v_ncols v)) (csv_records v))
+  /\ Forall (fun r => length r = v_ncols v) (map (pad_to (v_ncols v)) (csv_records v)).
+Proof. exact csv_session_roundtrip. Qed.
+Print Assumptions c05_session_roundtrip.
+
+Theorem c05_session_no_panic : forall vs, Forall (fun o => o <> Panic) (csv_session vs).
+Proof. exact csv_session_no_panic. Qed.
+Print Assumptions c05_session_no_panic.
+
+(* A render that fails PART-WAY: when the first record that does not fit comes
+   after records that do (a row that another table widened; any view with a row
+   longer than the column count), RenderTo has by then written exactly those
+   earlier records, whole - and the string-returning entry points return the
+   error and none of that text. *)
+Theorem c05_partial_failure : forall v pre bad post,
+  1 <= v_ncols v -> csv_records v = pre ++ bad :: post ->
+  Forall (fun r => length r <= v_ncols v) pre -> v_ncols v < length bad ->
+  exists ws, csv_render_to_tr v = (ws, Err)
+          /\ parse_csv (concat ws) = Some (map (pad_to (v_ncols v)) pre)
+          /\ csv_render_string v = Err
+          /\ csv_render v = Err.
+Proof. exact csv_partial_failure. Qed.
+Print Assumptions c05_partial_failure.
+
+(* non-vacuity: a header and a fitting row are written, the third record has one
+   cell too many; the same table rendered between two other tables *)
+Example c05_session_example :
+  let c s := mkVCell s false None 0 0 false in
+  let bad := mkView 2%nat (Some [c [104%N]; c [105%N]]) [Some [c [97%N]]; Some [c [98%N]; c [99%N]; c [100%N]]; Some [c [101%N]]] [None;None;None] [None;None;None] in
+  let good := mkView 1%nat None [Some [c [34%N]]] [None;None] [None;None] in
+  (exists ws, csv_render_to_tr bad = (ws, Err) /\ parse_csv (concat ws) = Some [[[104%N]; [105%N]]; [[97%N]; []]])
+  /\ exists out, csv_session [good; bad; good] = [Ok out; Err; Ok out] /\ parse_csv out = Some [[[34%N]]].
+Proof.
+  cbv zeta. split; eexists; split; vm_compute; reflexivity.
+Qed.
+
 (* non-vacuity: a ragged table with a zero-cell row, quotes, CR LF and NUL *)
 Local Open Scope N_scope.
 Example c05_example :
